@@ -19,9 +19,14 @@ EXTENDS RegionName, SequencesExt
 (*   rows     <<[key |-> k, n |-> cells], ...>> ascending by key                                               *)
 (*   splits   ascending split keys; regions are [<<>>,s1) [s1,s2) ... [sk,<<>>)                                 *)
 (*   start, stop, reversed, partial   the scan range, direction and AllowPartialResults                        *)
+(*   renew    hrpc.RenewInterval is set: between two fetches a renewer goroutine keeps the lease of the region   *)
+(*            scanner alive while the user is busy (renewLoop / renew)                                           *)
 CONSTANTS MaxCut,      \* largest number of results per response the environment tries
           MaxErrors, AllowCancel, AllowUserClose, AllowEarlyEnd,
-          ErrorOnce    \* TRUE: a cancelled scanner reports the context error once, then end-of-scan
+          ErrorOnce,   \* TRUE: a cancelled scanner reports the context error once, then end-of-scan
+          MaxRenew,    \* renewal ticks the environment lets happen in one scan
+          FixRenew     \* TRUE: a renewer is started only for an open region scanner and renews THAT scanner (its id is
+                       \*       captured); FALSE (pinned tree): started after every fetch, reads the current id at each tick
 
 VARIABLES
   cfg,
@@ -29,7 +34,11 @@ VARIABLES
   scn,       \* [id -> [reg, rows, pos, out]] open region scanners (out = cells of rows[pos] already sent)
   nextId,
   \* client (scanner struct)
-  startRow, curId, curReg, buf, closed, renewing,
+  startRow, curId, curReg, buf, closed,
+  renewing,  \* a renewer goroutine is alive
+  renewId,   \* the region scanner id it captured when it was started (FixRenew)
+  ticks,     \* renewal ticks so far
+  orphans,   \* region scanners opened on a server by a renewal request that carried no scanner id
   \* one Next() call in progress
   pc,        \* "idle" / "peek" / "req" / "resp"
   acc,       \* row being assembled by Next: <<>> or <<[row, n]>>
@@ -39,8 +48,8 @@ VARIABLES
   closeSent, \* region scanner ids for which an explicit close request was sent
   cancelled, errors, ctxReported, userClosed, earlyEnded
 
-vars == <<cfg, scn, nextId, startRow, curId, curReg, buf, closed, renewing, pc, acc, opening, outs, closeSent, cancelled, errors,
-          ctxReported, userClosed, earlyEnded>>
+vars == <<cfg, scn, nextId, startRow, curId, curReg, buf, closed, renewing, renewId, ticks, orphans, pc, acc, opening, outs, closeSent,
+          cancelled, errors, ctxReported, userClosed, earlyEnded>>
 
 NReg == Len(cfg.splits) + 1
 RegStart(r) == IF r = 1 THEN <<>> ELSE cfg.splits[r - 1]
@@ -74,7 +83,7 @@ Expected ==
 NoAcc == <<>>
 InitRest ==
   /\ scn = [i \in {} |-> 0] /\ nextId = 1
-  /\ startRow = cfg.start /\ curId = 0 /\ curReg = 0 /\ buf = <<>> /\ closed = FALSE /\ renewing = FALSE
+  /\ startRow = cfg.start /\ curId = 0 /\ curReg = 0 /\ buf = <<>> /\ closed = FALSE /\ renewing = FALSE /\ renewId = 0 /\ ticks = 0 /\ orphans = {}
   /\ pc = "idle" /\ acc = NoAcc /\ opening = FALSE /\ outs = <<>> /\ closeSent = {}
   /\ cancelled = FALSE /\ errors = 0 /\ ctxReported = FALSE /\ userClosed = FALSE /\ earlyEnded = FALSE
 
@@ -98,14 +107,15 @@ NextCall ==
           IF ErrorOnce /\ closed /\ buf = <<>>
           THEN \* already closed and drained: the cancellation (or an earlier error) was reported, or the scan was over
                /\ outs' = Append(outs, Out("eof", 0, 0, FALSE))
-               /\ UNCHANGED <<opening, scn, nextId, startRow, curId, curReg, buf, closed, renewing, pc, acc, closeSent, cancelled, errors,
+               /\ UNCHANGED <<opening, scn, nextId, startRow, curId, curReg, buf, closed, renewing, renewId, ticks, orphans, pc, acc, closeSent, cancelled, errors,
                               ctxReported, userClosed, earlyEnded>>
           ELSE /\ DoClose
                /\ outs' = Append(outs, Out("ctx", 0, 0, FALSE)) /\ ctxReported' = TRUE
                /\ buf' = IF ErrorOnce THEN <<>> ELSE buf
-               /\ UNCHANGED <<opening, nextId, startRow, curReg, renewing, pc, acc, cancelled, errors, userClosed, earlyEnded>>
+               /\ renewing' = FALSE
+               /\ UNCHANGED <<opening, nextId, startRow, curReg, renewId, ticks, orphans, pc, acc, cancelled, errors, userClosed, earlyEnded>>
      ELSE /\ pc' = "peek" /\ acc' = NoAcc
-          /\ UNCHANGED <<opening, scn, nextId, startRow, curId, curReg, buf, closed, renewing, outs, closeSent, cancelled, errors,
+          /\ UNCHANGED <<opening, scn, nextId, startRow, curId, curReg, buf, closed, renewing, renewId, ticks, orphans, outs, closeSent, cancelled, errors,
                          ctxReported, userClosed, earlyEnded>>
 
 Return(o) == outs' = Append(outs, o) /\ pc' = "idle" /\ acc' = NoAcc
@@ -117,32 +127,34 @@ Peek ==
      THEN LET r == Head(buf) IN
           IF cfg.partial
           THEN /\ Return(Out("row", r.row, r.n, r.partial)) /\ buf' = Tail(buf)
-               /\ UNCHANGED <<opening, scn, nextId, startRow, curId, curReg, closed, renewing, closeSent, cancelled, errors, ctxReported,
+               /\ UNCHANGED <<opening, scn, nextId, startRow, curId, curReg, closed, renewing, renewId, ticks, orphans, closeSent, cancelled, errors, ctxReported,
                               userClosed, earlyEnded>>
           ELSE IF acc = NoAcc
                THEN \* coalesce(nil, partial) -> take it
                     /\ buf' = Tail(buf)
                     /\ IF r.partial THEN acc' = <<[row |-> r.row, n |-> r.n]>> /\ UNCHANGED <<opening, pc, outs>>
                        ELSE Return(Out("row", r.row, r.n, FALSE))
-                    /\ UNCHANGED <<opening, scn, nextId, startRow, curId, curReg, closed, renewing, closeSent, cancelled, errors,
+                    /\ UNCHANGED <<opening, scn, nextId, startRow, curId, curReg, closed, renewing, renewId, ticks, orphans, closeSent, cancelled, errors,
                                    ctxReported, userClosed, earlyEnded>>
                ELSE IF r.row # acc[1].row
                     THEN \* a new row begins: what was assembled is complete; the new fragment stays buffered
                          /\ Return(Out("row", acc[1].row, acc[1].n, FALSE)) /\ UNCHANGED buf
-                         /\ UNCHANGED <<opening, scn, nextId, startRow, curId, curReg, closed, renewing, closeSent, cancelled, errors,
+                         /\ UNCHANGED <<opening, scn, nextId, startRow, curId, curReg, closed, renewing, renewId, ticks, orphans, closeSent, cancelled, errors,
                                         ctxReported, userClosed, earlyEnded>>
                     ELSE \* same row: append; the assembled result keeps its partial flag, so the loop goes on
                          /\ buf' = Tail(buf) /\ acc' = <<[row |-> r.row, n |-> acc[1].n + r.n]>>
-                         /\ UNCHANGED <<opening, pc, outs, scn, nextId, startRow, curId, curReg, closed, renewing, closeSent, cancelled,
+                         /\ UNCHANGED <<opening, pc, outs, scn, nextId, startRow, curId, curReg, closed, renewing, renewId, ticks, orphans, closeSent, cancelled,
                                         errors, ctxReported, userClosed, earlyEnded>>
      ELSE IF closed
           THEN \* io.EOF from peek
                /\ IF acc # NoAcc THEN Return(Out("row", acc[1].row, acc[1].n, FALSE))
                   ELSE Return(Out("eof", 0, 0, FALSE))
-               /\ UNCHANGED <<opening, scn, nextId, startRow, curId, curReg, buf, closed, renewing, closeSent, cancelled, errors,
+               /\ renewing' = FALSE        \* (the renewer is cancelled before anything else happens with an empty buffer)
+               /\ UNCHANGED <<opening, scn, nextId, startRow, curId, curReg, buf, closed, renewId, ticks, orphans, closeSent, cancelled, errors,
                               ctxReported, userClosed, earlyEnded>>
           ELSE /\ pc' = "req"
-               /\ UNCHANGED <<opening, scn, nextId, startRow, curId, curReg, buf, closed, renewing, acc, outs, closeSent, cancelled,
+               /\ renewing' = FALSE        \* about to send a new scan request: cancel the renewer
+               /\ UNCHANGED <<opening, scn, nextId, startRow, curId, curReg, buf, closed, renewId, ticks, orphans, acc, outs, closeSent, cancelled,
                               errors, ctxReported, userClosed, earlyEnded>>
 
 (* request(): open a region scanner where startRow lives, or continue the current one *)
@@ -157,7 +169,7 @@ Request ==
           /\ nextId' = nextId + 1
      ELSE UNCHANGED <<curReg, scn, curId, nextId>>
   /\ pc' = "resp" /\ opening' = (curId = 0)
-  /\ UNCHANGED <<startRow, buf, closed, renewing, acc, outs, closeSent, cancelled, errors, ctxReported, userClosed, earlyEnded>>
+  /\ UNCHANGED <<startRow, buf, closed, renewing, renewId, ticks, orphans, acc, outs, closeSent, cancelled, errors, ctxReported, userClosed, earlyEnded>>
 
 (* the rows a response carries for a cut [entries, cutAfter] and the scanner state after it *)
 Chunk(s, entries, cutAfter) ==
@@ -215,7 +227,10 @@ Respond(entries, cutAfter, noMore) ==
               ELSE /\ curId' = id2 /\ scn' = scnS /\ UNCHANGED <<closed, closeSent>>
            /\ pc' = IF entries > 0 THEN "peek" ELSE IF isDone THEN "peek" ELSE "req"
   /\ opening' = FALSE
-  /\ UNCHANGED <<nextId, curReg, renewing, acc, outs, cancelled, errors, ctxReported, userClosed>>
+  \* peek(): fetch returned results and the scan is not over: start a renewer
+  /\ renewing' = (cfg.renew /\ entries > 0 /\ ~closed' /\ ~cancelled /\ (FixRenew => curId' # 0))   \* (a renewer of an ended context ends at once)
+  /\ renewId' = curId'
+  /\ UNCHANGED <<nextId, curReg, ticks, orphans, acc, outs, cancelled, errors, ctxReported, userClosed>>
 
 (* the request fails (RPC error, or the context ends while it is outstanding): fetch closes and Next returns   *)
 (* what it has assembled together with the error                                                              *)
@@ -230,21 +245,42 @@ RequestFails(kind) ==
   /\ opening' = FALSE
   /\ outs' = Append(outs, IF acc = NoAcc THEN Out(kind, 0, 0, FALSE) ELSE Out(kind, acc[1].row, acc[1].n, TRUE))
   /\ pc' = "idle" /\ acc' = NoAcc
-  /\ UNCHANGED <<nextId, startRow, curReg, buf, renewing, cancelled, userClosed, earlyEnded>>
+  /\ renewing' = FALSE
+  /\ UNCHANGED <<nextId, startRow, curReg, buf, renewId, ticks, orphans, cancelled, userClosed, earlyEnded>>
 
 UserClose ==
   /\ AllowUserClose /\ pc = "idle" /\ ~userClosed
   /\ userClosed' = TRUE
   /\ DoClose
-  /\ UNCHANGED <<opening, nextId, startRow, curReg, buf, renewing, pc, acc, outs, cancelled, errors, ctxReported, earlyEnded>>
+  /\ renewing' = FALSE
+  /\ UNCHANGED <<opening, nextId, startRow, curReg, buf, renewId, ticks, orphans, pc, acc, outs, cancelled, errors, ctxReported, earlyEnded>>
 
 Cancel ==
   /\ AllowCancel /\ ~cancelled
   /\ cancelled' = TRUE
-  /\ UNCHANGED <<opening, scn, nextId, startRow, curId, curReg, buf, closed, renewing, pc, acc, outs, closeSent, errors, ctxReported,
+  /\ renewing' = FALSE            \* the renewer's context is derived from the scan's
+  /\ UNCHANGED <<opening, scn, nextId, startRow, curId, curReg, buf, closed, renewId, ticks, orphans, pc, acc, outs, closeSent, errors, ctxReported,
+                 userClosed, earlyEnded>>
+
+(* renewLoop: a tick between two Next calls (the user is busy with the rows it has). The renewal request names a region *)
+(* scanner; the server renews its lease, or answers "unknown scanner" (the renewer gives up). A renewal request WITHOUT   *)
+(* a scanner id is, for the server, a request to open a region scanner at the start row: nobody will ever close it.       *)
+RenewTick ==
+  /\ renewing /\ pc = "idle" /\ ticks < MaxRenew
+  /\ ticks' = ticks + 1
+  /\ LET tgt == IF FixRenew THEN renewId ELSE curId IN
+     IF tgt = 0
+     THEN LET r == RegionOf(startRow) IN
+          /\ scn' = [i \in DOMAIN scn \cup {nextId} |->
+                       IF i = nextId THEN [reg |-> r, rows |-> Selected(r, startRow, <<>>), pos |-> 1, out |-> 0] ELSE scn[i]]
+          /\ orphans' = orphans \cup {nextId} /\ nextId' = nextId + 1 /\ UNCHANGED renewing
+     ELSE IF tgt \in DOMAIN scn THEN UNCHANGED <<scn, orphans, nextId, renewing>>
+     ELSE renewing' = FALSE /\ UNCHANGED <<scn, orphans, nextId>>
+  /\ UNCHANGED <<opening, startRow, curId, curReg, buf, closed, renewId, pc, acc, outs, closeSent, cancelled, errors, ctxReported,
                  userClosed, earlyEnded>>
 
 Next ==
+  \/ RenewTick
   \/ (~(pc = "idle" /\ Len(outs) >= 2 /\ outs[Len(outs)].kind = "eof" /\ outs[Len(outs) - 1].kind \in {"eof", "err", "ctx"}) /\ NextCall)
   \/ Peek \/ Request
   \/ \E e \in 0..MaxCut, c \in 0..2, nm \in BOOLEAN : Respond(e, c, nm)
@@ -292,4 +328,7 @@ ErrorOnceThenEOF ==
 NoLeakedRegionScanner ==   \* whenever the scan has ended and the client is idle, no region scanner is left open
   (pc = "idle" /\ closed) => DOMAIN scn = {}
 ClosedMeansNoCurrent == closed => curId = 0
+(* renewals *)
+RenewerOnlyWhileOpen == renewing => ~closed /\ ~cancelled
+NoOrphanScanner == orphans = {}
 =============================================================================
